@@ -8,6 +8,7 @@ import random
 import shutil
 import subprocess
 import sys
+import threading
 import time
 import traceback
 
@@ -90,6 +91,9 @@ class Check:
         self.seed = int(seed if seed is not None else os.environ.get("VERIF_SEED", "1") or 1)
         self.level = level
         self.t0 = time.time()
+        self._tls = threading.local()
+        self._dir_lock = threading.Lock()
+        self._dir_owner = {}
         self.scratch = os.path.join(BUILD, "run-%s-%d" % (pid, os.getpid()))
         shutil.rmtree(self.scratch, ignore_errors=True)
         os.makedirs(self.scratch, exist_ok=True)
@@ -116,7 +120,28 @@ class Check:
         return q if self.tier == "quick" else t
 
     def dir(self, name):
-        d = os.path.join(self.scratch, str(name))
+        """Scratch directory for the running case.  Names are re-used across cases (`c%d` % (i % 48)) to bound disk use; a case that is
+        still running (valgrind, Miri) keeps its directory: a concurrent case asking for the same name gets a private alternative."""
+        name = str(name)
+        tok = getattr(self._tls, "token", None)
+        if tok is None:
+            d = os.path.join(self.scratch, name)
+            os.makedirs(d, exist_ok=True)
+            return d
+        with self._dir_lock:
+            mine = self._tls.dirs
+            if name in mine:
+                real = mine[name]
+            else:
+                real, k = name, 0
+                while self._dir_owner.get(real) not in (None, tok):
+                    k += 1
+                    real = "%s~%d" % (name, k)
+                self._dir_owner[real] = tok
+                mine[name] = real
+                if k:
+                    self.obs["scratch_dir_collisions_avoided"] = self.obs.get("scratch_dir_collisions_avoided", 0) + 1
+        d = os.path.join(self.scratch, real)
         os.makedirs(d, exist_ok=True)
         return d
 
@@ -132,12 +157,22 @@ class Check:
             if deadline and time.time() > deadline:
                 self.budget_hit = True
                 return []
+            self._tls.token = object()
+            self._tls.dirs = {}
             try:
                 r = fn(c)
             except HarnessError as ex:
                 r = Verdict(INCONCLUSIVE, str(c)[:80], "harness: %s" % ex)
             except Exception:
                 r = Verdict(INCONCLUSIVE, str(c)[:80], "harness exception: " + traceback.format_exc()[-1500:])
+            finally:
+                with self._dir_lock:
+                    for real in self._tls.dirs.values():
+                        self._dir_owner.pop(real, None)
+                        if "~" in real:
+                            shutil.rmtree(os.path.join(self.scratch, real), ignore_errors=True)
+                self._tls.token = None
+                self._tls.dirs = {}
             if r is None:
                 return []
             return r if isinstance(r, list) else [r]
